@@ -319,6 +319,14 @@ func Discharge(o *Obligation, outDir string, timeoutSec int, need int) {
 		o.Status = "unsupported"
 		return
 	}
+	if o.Cover {
+		// vacuity guards only need to show that "false" is not derivable; a few seconds suffice, and a
+		// quantified precondition often cannot be shown satisfiable (unknown = not shown contradictory)
+		if timeoutSec > 5 {
+			timeoutSec = 5
+		}
+		need = 1
+	}
 	base := sanitizeFile(o.Name)
 	os.MkdirAll(outDir, 0o755)
 	o.SmtFile = filepath.Join(outDir, base+".smt2")
